@@ -146,6 +146,10 @@ def check_mirrors(P, ctx):
         fa, fb = P.fn(P.slot(T, 'Iter', a)), P.fn(P.slot(T, 'Iter', b))
         ctx.fn(fa)
         ctx.fn(fb)
+        if T == 'Tree':
+            from . import inline
+            spine = {n: P.fn(n) for n in ('Tree_Maximum',) if P.fn(n, required=False)}
+            fa, fb = inline.splice_into(fa, spine), inline.splice_into(fb, spine)
         ca = mirror.canon_body(fa, swap)
         cb = mirror.canon_body(fb, {})
         d = mirror.first_difference(ca, cb)
